@@ -546,7 +546,7 @@ func (r *Run) checkCut(P string) {
 				_ = why
 				continue
 			}
-			res := core.RetOp(ret, 0)
+			res := ev.ret(ret, 0)
 			wantA := wo[0] <= wo[1]
 			if wo[0] == wo[1] {
 				continue
